@@ -204,6 +204,13 @@ Ps == ParamsFor(form, Sv)
 Once == ExecP(St, form, Ps, InitRows)
 Twice == ExecP(St, form, Ps, Once.rows)
 
+\* a SECOND binding of the same prepared statement: the slot values of another case of the same template, executed after
+\* the first (a plan that bakes its first binding in would repeat the first statement)
+Others == {c \in CasesOf(kind) : c[1] = St /\ c[2] # Sv /\ FormOk(form, c[2])}
+Sv2 == IF Others = {} THEN Sv ELSE (CHOOSE c \in Others : TRUE)[2]
+Ps2 == ParamsFor(form, Sv2)
+Other == ExecP(St, form, Ps2, Once.rows)
+
 (* ------------------------------------------------------------------ meta-invariants of the reference itself *)
 \* binding the parameters ParamsFor computes gives back the intended slot values, for every form
 SubstRoundTrip == done => Subst(form, Ps, St.nslots) = Sv
@@ -212,7 +219,7 @@ FormLaws == done => /\ (form \in {"anon", "dollar", "named"} => Ps = Sv)
             /\ (form = "rev" => ParamsFor("rev", Ps) = Sv)
             /\ Len(Ps) = NParams(form, St.nslots)
 \* the property proper, on the model: one semantics (this is what the implementation is compared with)
-ParamIsLiteral == done => ExecP(St, form, Ps, InitRows) = Exec(St, Sv, InitRows)
+ParamIsLiteral == done => ExecP(St, form, Ps, InitRows) = Exec(St, Sv, InitRows) /\ Other = Exec(St, Sv2, Once.rows)
 ConstraintsHold == done => TableOk(InitRows) /\ TableOk(Once.rows) /\ TableOk(Twice.rows)
 ErrLeavesStateAlone == done => (~Once.ok => Once.rows = InitRows) /\ (~Twice.ok => Twice.rows = Once.rows)
 \* queries do not change the state; a repeated INSERT fails; a repeated UPDATE / DELETE is idempotent on the rows
